@@ -33,6 +33,39 @@ theorem fieldsLength_flatMap (arr : List TagValue) (fs : List Field) :
 theorem length_eq_fieldsLength {m : FieldMap} (h : FMInv m) (arr : List TagValue) : m.length arr = fieldsLength (m.tvs arr) := by
   rw [FieldMap.length_written h arr, FieldMap.tvs, fieldsLength_flatMap]
 
+def fieldsTotal (l : List TagValue) : Nat := ((l.filter (fun tv => tv.tag ≠ 10)).map TagValue.total).sum
+
+theorem fieldsTotal_append (a b : List TagValue) : fieldsTotal (a ++ b) = fieldsTotal a + fieldsTotal b := by
+  simp [fieldsTotal, List.filter_append, List.sum_append]
+
+theorem fieldsTotal_flatMap (arr : List TagValue) (fs : List Field) :
+    fieldsTotal (fs.flatMap (Field.items arr)) = (fs.map (sumKeep arr)).sum := by
+  induction fs with
+  | nil => rfl
+  | cons f r ih => simp [List.flatMap_cons, fieldsTotal_append, ih]; rfl
+
+theorem total_eq_fieldsTotal {m : FieldMap} (h : FMInv m) (arr : List TagValue) : m.total arr = fieldsTotal (m.tvs arr) := by
+  rw [FieldMap.total_written h arr, FieldMap.tvs, fieldsTotal_flatMap]
+
+theorem fieldsTotal_eq_sum (l : List TagValue) (h : ∀ tv ∈ l, tv.tag ≠ 10) : fieldsTotal l = (wireOf l).sum := by
+  induction l with
+  | nil => rfl
+  | cons tv r ih =>
+    have e1 : wireOf (tv :: r) = tv.bytes ++ wireOf r := by simp [wireOf]
+    have ht : tv.tag ≠ 10 := h tv (by simp)
+    rw [e1, List.sum_append, ← ih (fun x hx => h x (by simp [hx]))]
+    simp [fieldsTotal, List.filter_cons, ht, TagValue.total, bytesTotal]
+
+theorem fieldsLength_eq_len (l : List TagValue) (h : ∀ tv ∈ l, tv.tag ≠ 8 ∧ tv.tag ≠ 9 ∧ tv.tag ≠ 10) :
+    fieldsLength l = (wireOf l).length := by
+  induction l with
+  | nil => rfl
+  | cons tv r ih =>
+    have e1 : wireOf (tv :: r) = tv.bytes ++ wireOf r := by simp [wireOf]
+    have ht := h tv (by simp)
+    rw [e1, List.length_append, ← ih (fun x hx => h x (by simp [hx]))]
+    simp [fieldsLength, List.filter_cons, ht, TagValue.length]
+
 /-! ## canonical TagValues are wire fields -/
 
 theorem fmtNat_chars (n : Nat) : ∀ c ∈ fmtNat n, isDigit c = true := by
@@ -93,7 +126,8 @@ theorem build_cooked (m : Message) (hb : Built m) (bytes : Bytes) (m' : Message)
       let H' := m.header.put 9 (.owned [TagValue.init 9 (fmtInt ((m.header.length m.fields + m.body.length m.fields + m.trailer.length m.fields : Nat) : Int))])
       let T' := m.trailer.put 10 (.owned [TagValue.init 10 (digitsW 3 C)])
       FMInv H' ∧ FMInv T' ∧ SecProper .h H' ∧ SecProper .t T' ∧
-      bytes = (H'.write m.fields).1 ++ (m.body.write m.fields).1 ++ (T'.write m.fields).1 := by
+      bytes = (H'.write m.fields).1 ++ (m.body.write m.fields).1 ++ (T'.write m.fields).1 ∧
+      C = (H'.total m.fields + m.body.total m.fields + m.trailer.total m.fields) % 256 := by
   obtain ⟨_, m2, hcook, _, hbytes⟩ := hb.inv.build bytes m' h
   simp only [Message.cook, Message.setInt] at hcook
   split at hcook
@@ -109,9 +143,10 @@ theorem build_cooked (m : Message) (hb : Built m) (bytes : Bytes) (m' : Message)
   refine ⟨(m1.header.total m1.fields + m.body.total m.fields + m1.trailer.total m1.fields) % 256, ?_⟩
   refine ⟨hb.inv.h.put' _ _, hb.inv.t.put' _ _,
     hb.ph.put (TagValue.init 9 _) (fun _ => ⟨fun e => absurd e (by simp [TagValue.init]), fun _ => rfl⟩),
-    hb.pt.put (TagValue.init 10 _) (fun _ => ⟨fun _ => rfl, fun e => absurd rfl e⟩), ?_⟩
-  rw [hbytes, e2, e1]
-  rfl
+    hb.pt.put (TagValue.init 10 _) (fun _ => ⟨fun _ => rfl, fun e => absurd rfl e⟩), ?_, ?_⟩
+  · rw [hbytes, e2, e1]
+    rfl
+  · rw [e1]; rfl
 
 
 /-! ## sections as TagValue lists -/
@@ -247,9 +282,13 @@ theorem build_wire' (m : Message) (hb : Built m) (hc : Wired m) (tv8 : TagValue)
       WireMsg tv8 t9 t35 (restH ++ m.body.tvs m.fields ++ frontT) t10 ∧
       atoi t9.value = .ok ((fieldsLength (tv8 :: t9 :: t35 :: ((restH ++ m.body.tvs m.fields ++ frontT) ++ [t10])) : Nat) : Int) ∧
       (∀ tv ∈ t35 :: restH, ∃ k f, alFind m.header.lookup k = some f ∧ tv ∈ f.items m.fields) ∧
-      (∀ tv ∈ frontT, ∃ k f, alFind m.trailer.lookup k = some f ∧ tv ∈ f.items m.fields ∧ k ≠ 10) := by
-  obtain ⟨C, iH, iT, pH, pT, hbytes⟩ := build_cooked m hb bytes m' h
-  generalize hN : m.header.length m.fields + m.body.length m.fields + m.trailer.length m.fields = N at iH pH hbytes
+      (∀ tv ∈ frontT, ∃ k f, alFind m.trailer.lookup k = some f ∧ tv ∈ f.items m.fields ∧ k ≠ 10) ∧
+      t9 = TagValue.init 9 (fmtNat (fieldsLength (tv8 :: t9 :: t35 :: ((restH ++ m.body.tvs m.fields ++ frontT) ++ [t10])))) ∧
+      t10 = TagValue.init 10 (digitsW 3 ((wireOf (tv8 :: t9 :: t35 :: (restH ++ m.body.tvs m.fields ++ frontT))).sum % 256)) ∧
+      (∀ tv ∈ tv8 :: t9 :: t35 :: ((restH ++ m.body.tvs m.fields ++ frontT) ++ [t10]), CanonTV tv) ∧
+      (∀ tv ∈ t35 :: (restH ++ m.body.tvs m.fields ++ frontT), ¬ isSpecialTag tv.tag) := by
+  obtain ⟨C, iH, iT, pH, pT, hbytes, hCdef⟩ := build_cooked m hb bytes m' h
+  generalize hN : m.header.length m.fields + m.body.length m.fields + m.trailer.length m.fields = N at iH pH hbytes hCdef
   have c9 : CanonTV (TagValue.init 9 (fmtInt (N : Int))) :=
     canon_init 9 _ (fun c hc' => (fmtInt_chars _ c hc').2) (by unfold inInt64; omega)
   have c10 : CanonTV (TagValue.init 10 (digitsW 3 C)) :=
@@ -280,7 +319,7 @@ theorem build_wire' (m : Message) (hb : Built m) (hc : Wired m) (tv8 : TagValue)
   have t8tag : tv8.tag = 8 := by
     obtain ⟨tv, rest, hl, ht⟩ := hb.ph.head 8 _ h8
     injection hl with a b; subst a; exact ht
-  refine ⟨_, t35, restH, frontT, _, hL, ?_, ?_, ?_, ?_⟩
+  refine ⟨_, t35, restH, frontT, _, hL, ?_, ?_, ?_, ?_, ?_, ?_, ?_, ?_⟩
   · refine ⟨canonTV_isWire _ (allH tv8 (by simp)).1, canonTV_isWire _ c9, canonTV_isWire _ (allH t35 (by simp)).1, ?_,
       canonTV_isWire _ c10, t8tag, rfl, ht35, rfl, ?_⟩
     · intro tv htv
@@ -342,12 +381,66 @@ theorem build_wire' (m : Message) (hb : Built m) (hc : Wired m) (tv8 : TagValue)
       exact absurd (Or.inr (Or.inr t10)) (clT tv htv)
     · rw [put_find_other _ _ _ _ e] at hf; exact ⟨k, f, hf, hm, e⟩
 
+  · -- BodyLength field, explicitly
+    have lenH : (m.header.put 9 (.owned [TagValue.init 9 (fmtInt (N : Int))])).length m.fields = m.header.length m.fields :=
+      put_length_special _ _ _ _ (lenKeep_special _ _ (Or.inr (Or.inl rfl))) (fun o ho => hb.ph.old_len _ 9 (Or.inr (Or.inl rfl)) o ho)
+    have lenT : (m.trailer.put 10 (.owned [TagValue.init 10 (digitsW 3 C)])).length m.fields = m.trailer.length m.fields :=
+      put_length_special _ _ _ _ (lenKeep_special _ _ (Or.inr (Or.inr rfl))) (fun o ho => hb.pt.old_len _ 10 (Or.inr (Or.inr rfl)) o ho)
+    have e : tv8 :: TagValue.init 9 (fmtInt (N : Int)) :: t35 :: ((restH ++ m.body.tvs m.fields ++ frontT) ++ [TagValue.init 10 (digitsW 3 C)]) =
+        (tv8 :: TagValue.init 9 (fmtInt (N : Int)) :: t35 :: restH) ++ m.body.tvs m.fields ++ (frontT ++ [TagValue.init 10 (digitsW 3 C)]) := by
+      simp [List.append_assoc]
+    rw [e, fieldsLength_append, fieldsLength_append, ← eH, ← eT, ← length_eq_fieldsLength iH, ← length_eq_fieldsLength hb.inv.b,
+      ← length_eq_fieldsLength iT, lenH, lenT, hN, fmtInt_ofNat]
+  · -- CheckSum field, explicitly
+    have totT : (m.trailer.put 10 (.owned [TagValue.init 10 (digitsW 3 C)])).total m.fields = m.trailer.total m.fields :=
+      put_total_special _ _ _ _ (sumKeep_10 _ _ rfl) (fun o ho => hb.pt.old_sum _ o ho)
+    have hsum : (m.header.put 9 (.owned [TagValue.init 9 (fmtInt (N : Int))])).total m.fields + m.body.total m.fields + m.trailer.total m.fields =
+        (wireOf (tv8 :: TagValue.init 9 (fmtInt (N : Int)) :: t35 :: (restH ++ m.body.tvs m.fields ++ frontT))).sum := by
+      rw [← totT, total_eq_fieldsTotal iH, total_eq_fieldsTotal hb.inv.b, total_eq_fieldsTotal iT, eH, eT, fieldsTotal_append,
+        show fieldsTotal [TagValue.init 10 (digitsW 3 C)] = 0 from by simp [fieldsTotal, TagValue.init],
+        Nat.add_zero, ← fieldsTotal_append, ← fieldsTotal_append]
+      have e : tv8 :: TagValue.init 9 (fmtInt (N : Int)) :: t35 :: restH ++ m.body.tvs m.fields ++ frontT =
+          tv8 :: TagValue.init 9 (fmtInt (N : Int)) :: t35 :: (restH ++ m.body.tvs m.fields ++ frontT) := by simp [List.append_assoc]
+      rw [e]
+      apply fieldsTotal_eq_sum
+      intro tv htv
+      simp only [List.mem_cons, List.mem_append] at htv
+      rcases htv with e | e | e | (e | e) | e
+      · subst e; rw [t8tag]; decide
+      · subst e; simp [TagValue.init]
+      · subst e; rw [ht35]; decide
+      · exact (tagOf tv (clH tv e)).1
+      · exact (tagOf tv (clB tv e)).1
+      · exact (tagOf tv (clT tv e)).1
+    rw [hCdef, hsum]
+  · -- every TagValue written is canonical
+    intro tv htv
+    simp only [List.mem_cons, List.mem_append, List.mem_singleton] at htv
+    rcases htv with e | e | e | ((e | e) | e) | e
+    · subst e; exact (allH tv (by simp)).1
+    · subst e; exact c9
+    · subst e; exact (allH tv (by simp)).1
+    · exact (allH tv (by simp [e])).1
+    · exact (allB tv e).1
+    · exact (allT tv (by simp [e])).1
+    · rcases e with e | e
+      · exact (allT tv (by simp [e])).1
+      · simp at e
+  · -- no special tag between BodyLength and CheckSum
+    intro tv htv
+    simp only [List.mem_cons, List.mem_append] at htv
+    rcases htv with e | (e | e) | e
+    · subst e; intro hsp; rcases hsp with h | h | h <;> rw [ht35] at h <;> exact absurd h (by decide)
+    · exact clH tv e
+    · exact clB tv e
+    · exact clT tv e
+
 theorem build_wire (m : Message) (hb : Built m) (hc : Wired m) (tv8 : TagValue) (f35 : Field)
     (h8 : alFind m.header.lookup 8 = some (.owned [tv8])) (h35 : alFind m.header.lookup 35 = some f35)
     (bytes : Bytes) (m' : Message) (h : m.build Fixes.cur = .ok (bytes, m')) (hsmall : bytes.length < 9223372036854775808) :
     ∃ t9 t35 pre t10, bytes = wireOf (tv8 :: t9 :: t35 :: (pre ++ [t10])) ∧ WireMsg tv8 t9 t35 pre t10 ∧
       atoi t9.value = .ok ((fieldsLength (tv8 :: t9 :: t35 :: (pre ++ [t10])) : Nat) : Int) := by
-  obtain ⟨t9, t35, restH, frontT, t10, h1, h2, h3, _, _⟩ := build_wire' m hb hc tv8 f35 h8 h35 bytes m' h hsmall
+  obtain ⟨t9, t35, restH, frontT, t10, h1, h2, h3, _⟩ := build_wire' m hb hc tv8 f35 h8 h35 bytes m' h hsmall
   exact ⟨t9, t35, _, t10, h1, h2, h3⟩
 
 /-! ## `Wired` is an invariant of operations with int64 tags (not XMLDataLen) and SOH-free values -/
